@@ -79,33 +79,35 @@ func decisionsOf(rf *ReplayFile) []string {
 }
 
 type WorkerOut struct {
-	Worker        int                 `json:"worker"`
-	Property      string              `json:"property"`
-	Runs          int                 `json:"runs"`
-	SweepRuns     int                 `json:"sweep_runs"`
-	Nontrivial    int                 `json:"nontrivial_runs"`
-	Multi         int                 `json:"runs_with_2plus_tasks_in_flight"`
-	Steps         int64               `json:"scheduler_steps"`
-	SimTimeNS     float64             `json:"simulated_ns"`
-	Verdicts      map[string]int      `json:"verdicts"`
-	Faults        map[string]int      `json:"faults_fired"`
-	FaultRuns     map[string]int      `json:"runs_with_fault"`
-	Probes        map[string]int      `json:"probes"`
-	Policies      map[string]int      `json:"policies"`
-	Modes         map[string]int      `json:"construction_modes"`
-	OtherProp     map[string]int      `json:"violations_of_other_properties_seen"`
-	FirstIdx      uint64              `json:"first_run_index"`
-	LastIdx       uint64              `json:"last_run_index"`
-	WallS         float64             `json:"wall_s"`
-	Violation     *ReplayFile         `json:"violation,omitempty"`
-	ReplayPath    string              `json:"replay_path,omitempty"`
-	Known         []string            `json:"known_findings,omitempty"`
-	Inconclusive  string              `json:"inconclusive,omitempty"`
-	Samples       []json.RawMessage   `json:"samples,omitempty"`
-	DistinctFull  int                 `json:"distinct_schedules_this_worker"`
-	HashTruncated bool                `json:"hash_set_truncated"`
-	OracleEvals   map[string]int      `json:"oracle_evaluations,omitempty"`
-	_             map[string]struct{} `json:"-"`
+	Worker         int                 `json:"worker"`
+	Property       string              `json:"property"`
+	Runs           int                 `json:"runs"`
+	SweepRuns      int                 `json:"sweep_runs"`
+	Nontrivial     int                 `json:"nontrivial_runs"`
+	Multi          int                 `json:"runs_with_2plus_tasks_in_flight"`
+	Steps          int64               `json:"scheduler_steps"`
+	SimTimeNS      float64             `json:"simulated_ns"`
+	Verdicts       map[string]int      `json:"verdicts"`
+	Faults         map[string]int      `json:"faults_fired"`
+	FaultRuns      map[string]int      `json:"runs_with_fault"`
+	Probes         map[string]int      `json:"probes"`
+	Policies       map[string]int      `json:"policies"`
+	Modes          map[string]int      `json:"construction_modes"`
+	OtherProp      map[string]int      `json:"violations_of_other_properties_seen"`
+	FirstIdx       uint64              `json:"first_run_index"`
+	LastIdx        uint64              `json:"last_run_index"`
+	WallS          float64             `json:"wall_s"`
+	Violation      *ReplayFile         `json:"violation,omitempty"`
+	ReplayPath     string              `json:"replay_path,omitempty"`
+	Known          []string            `json:"known_findings,omitempty"`
+	Inconclusive   string              `json:"inconclusive,omitempty"`
+	Samples        []json.RawMessage   `json:"samples,omitempty"`
+	DistinctFull   int                 `json:"distinct_schedules_this_worker"`
+	HashTruncated  bool                `json:"hash_set_truncated"`
+	FoundAfterRuns int                 `json:"found_after_runs,omitempty"`
+	FoundAfterS    float64             `json:"found_after_s,omitempty"`
+	OracleEvals    map[string]int      `json:"oracle_evaluations,omitempty"`
+	_              map[string]struct{} `json:"-"`
 }
 
 func bump(m map[string]int, k string, n int) { m[k] += n }
@@ -356,6 +358,7 @@ func main() {
 			}
 		}
 		if mine != nil {
+			w.FoundAfterRuns, w.FoundAfterS = w.Runs, time.Since(t0).Seconds()
 			// reproduce with recording, minimise, classify
 			c := simrt.NewRandomChooser(sc.ChSeed, sc.Policy, true)
 			r2 := Execute(sc, c, false)
